@@ -11,6 +11,7 @@ DIMS_POOL = [
     {'l': 0, 'q': [], 's': [2]}, {'l': 1, 'q': [], 's': [1]}, {'l': 2, 'q': [], 's': [0, 2]},
     {'l': 1, 'q': [3], 's': [2, 1]}, {'l': 0, 'q': [], 's': [3]}, {'l': 2, 'q': [1, 2], 's': [1]},
     {'l': 1, 'q': [], 's': [0]}, {'l': 3, 'q': [2], 's': [2]},
+    {'l': 0, 'q': [], 's': [3, 2]}, {'l': 1, 'q': [], 's': [2, 3]}, {'l': 0, 'q': [2], 's': [3, 1]},
     {'l': 1, 'q': [], 's': [2, 2]}, {'l': 0, 'q': [], 's': [2, 1]}, {'l': 0, 'q': [], 's': [1, 2]}, {'l': 1, 'q': [], 's': [2, 1, 2]},
 ]
 JUNK = 7   # value planted in unreferenced (strictly upper) cells of 's' blocks
@@ -72,7 +73,17 @@ def gen_candidate(rnd, kind, qp=False, junk=False, dims=None):
     K = cdim(d)
     w = wt(d)
     n = rnd.randint(1, 3)
-    p = rnd.randint(0, min(n - 1, 1)) if rnd.random() < 0.5 else 0
+    p = rnd.randint(0, min(n - 1, 2)) if rnd.random() < 0.6 else 0
+    thin = False
+    if qp and kind == 'solvable' and rnd.random() < 0.15:
+        # "thin" QPs: [P; G] is rank deficient and only the equality constraints complete the rank
+        # (the first factorisation of kkt_chol2 is singular and takes its fallback path)
+        d = {'l': 1, 'q': [], 's': []}
+        K = 1
+        w = wt(d)
+        n = 3
+        thin = True
+        p = 2 if rnd.random() < 0.5 else 1
     G = [sym_random(rnd, d, junk=junk) for _ in range(n)]           # columns
     A = [[rnd.randint(-2, 2) for _ in range(p)] for _ in range(n)]
     I = {'n': n, 'p': p, 'dims': d, 'kind': kind, 'junk': junk}
@@ -121,6 +132,8 @@ def gen_candidate(rnd, kind, qp=False, junk=False, dims=None):
         c = [-(sdot(G[j], z0, w) + sum(A[j][r] * y0[r] for r in range(p))) for j in range(n)]
     if qp:
         k = rnd.randint(0, n)
+        if thin:
+            k = rnd.randint(0, 1)
         R = [[rnd.randint(-2, 2) for _ in range(k)] for _ in range(n)]      # columns of R (k x n)
         Rx = [sum(R[j][r] * x0[j] for j in range(n)) for r in range(k)]
         Px = [sum(R[j][r] * Rx[r] for r in range(k)) for j in range(n)]
